@@ -22,7 +22,7 @@ const subSDL = `
 type Query { x: Int }
 type Subscription { listen(topic: String): Event must(topic: String): Event! batch(topic: String): [Event!]! many(topic: String): [Event] fail(topic: String): Event ticks(topic: String): Int level(topic: String): Level! }
 enum Level { LOW HIGH }
-type Event { id: ID n: Int tag: String inner: Inner list: [Int] }
+type Event { id: ID n: Int tag: String inner: Inner list: [Int] echo(x: Int, s: String): String }
 type Inner { v: Int w: String }
 `
 
@@ -30,7 +30,8 @@ func subModel() *model.Schema {
 	f := func(n, t string) *model.FieldDef { return &model.FieldDef{Name: n, Type: model.Named(t)} }
 	return &model.Schema{Query: "Query", Types: []*model.TypeDef{
 		{Kind: model.Object, Name: "Query", Fields: []*model.FieldDef{f("ev", "Event")}},
-		{Kind: model.Object, Name: "Event", Fields: []*model.FieldDef{f("id", "ID"), f("n", "Int"), f("tag", "String"), f("inner", "Inner"), {Name: "list", Type: model.ListOf(model.Named("Int"))}}},
+		{Kind: model.Object, Name: "Event", Fields: []*model.FieldDef{f("id", "ID"), f("n", "Int"), f("tag", "String"), f("inner", "Inner"), {Name: "list", Type: model.ListOf(model.Named("Int"))},
+			{Name: "echo", Type: model.Named("String"), Echo: true, Args: []*model.ArgDef{{Name: "x", Type: model.Named("Int")}, {Name: "s", Type: model.Named("String")}}}}},
 		{Kind: model.Object, Name: "Inner", Fields: []*model.FieldDef{f("v", "Int"), f("w", "String")}},
 	}}
 }
@@ -61,6 +62,13 @@ func (e *subEvent) Resolve(field *ggql.Field, args map[string]interface{}) (inte
 		return &subInner{e.v, e.tag + "-w"}, nil
 	case "list":
 		return e.list, nil
+	case "echo":
+		// what the field was called with, as the reference executor renders it
+		shown, _ := ref.Canon(args).(map[string]interface{})
+		if shown == nil {
+			shown = map[string]interface{}{}
+		}
+		return ref.EchoText(field.Name, shown), nil
 	}
 	return nil, fmt.Errorf("no field %s", field.Name)
 }
@@ -123,6 +131,10 @@ type hSub struct {
 	current *int64 // the event being published by the (single) sequential publisher, for attribution
 	// given: what the subscription field's resolver received as its topic argument ("<none>" when it was not a string)
 	given string
+	// vdefs, vars: the variables the subscription request declared and the values it was made with; its selection set can
+	// use them, and every event is answered with them
+	vdefs []*model.VarDef
+	vars  map[string]interface{}
 }
 
 // Match: events that are slices are published under ids starting with "B:" and concern the subscribers of the list-typed
@@ -249,6 +261,54 @@ func subSelection(r *rand.Rand) []model.Sel {
 	return sels
 }
 
+// subSelectionWithVars adds to a selection set over Event an echo field whose argument is a variable and puts a
+// @skip / @include with a variable condition on one of the selections; it returns the variable definitions and the values
+// the request supplies.
+func subSelectionWithVars(r *rand.Rand, sels []model.Sel) ([]model.Sel, []*model.VarDef, map[string]interface{}) {
+	vars := map[string]interface{}{}
+	var vdefs []*model.VarDef
+	out := append([]model.Sel{}, sels...)
+	x := &model.VarDef{Name: "x", Type: model.Named("Int")}
+	switch r.Intn(3) {
+	case 0: // default only
+		x.HasDefault, x.Default = true, int64(1+r.Intn(90))
+	case 1: // supplied over a default
+		x.HasDefault, x.Default = true, int64(-7)
+		vars["x"] = 100 + r.Intn(900)
+	default:
+		vars["x"] = 100 + r.Intn(900)
+	}
+	vdefs = append(vdefs, x)
+	echo := &model.Field{Alias: "e0", Name: "echo", Args: []model.Arg{{Name: "x", Value: model.VarRef("x")}, {Name: "s", Value: "k"}}}
+	out = append(out, echo)
+	if r.Intn(3) != 0 {
+		hide := r.Intn(2) == 0
+		c := &model.VarDef{Name: "c", Type: model.NonNullOf(model.Named("Boolean"))}
+		if r.Intn(2) == 0 {
+			c.HasDefault, c.Default = true, !hide
+			vars["c"] = hide
+		} else {
+			vars["c"] = hide
+		}
+		vdefs = append(vdefs, c)
+		dir := "skip"
+		if r.Intn(2) == 0 {
+			dir = "include"
+		}
+		// on a copy of one of the fields: the drawn selection set is shared with kept requests
+		j := r.Intn(len(out))
+		if f, isF := out[j].(*model.Field); isF {
+			cp := *f
+			cp.Dirs = []model.DirUse{{Name: dir, Args: []model.Arg{{Name: "if", Value: model.VarRef("c")}}}}
+			out[j] = &cp
+		}
+	}
+	if len(vars) == 0 {
+		vars = nil
+	}
+	return out, vdefs, vars
+}
+
 func subRequestText(topic string, sels []model.Sel) string {
 	return subRequestTextV("listen", topic, sels, 0)
 }
@@ -286,10 +346,20 @@ func subRequestTextV(fieldName, topic string, sels []model.Sel, form int) string
 
 // expectedMessage is the subscriber's own selection applied to the event (reference executor).
 func expectedMessage(ms *model.Schema, sels []model.Sel, e *subEvent) string {
-	d := &model.Doc{Ops: []*model.Op{{Kind: "query", Shorthand: true, Sels: []model.Sel{&model.Field{Name: "ev", Sels: sels}}}}}
-	res := ref.Execute(ms, d, "", nil, e.node(), nil, ref.Flags{})
+	return expectedMessageV(ms, sels, e, nil, nil)
+}
+
+func expectedMessageV(ms *model.Schema, sels []model.Sel, e *subEvent, vdefs []*model.VarDef, vars map[string]interface{}) string {
+	msg, _ := expectedMessageE(ms, sels, e, vdefs, vars)
+	return msg
+}
+
+// expectedMessageE also tells whether applying the selection set to the event produces an error.
+func expectedMessageE(ms *model.Schema, sels []model.Sel, e *subEvent, vdefs []*model.VarDef, vars map[string]interface{}) (string, bool) {
+	d := &model.Doc{Ops: []*model.Op{{Kind: "query", Shorthand: len(vdefs) == 0, Name: "Q", Vars: vdefs, Sels: []model.Sel{&model.Field{Name: "ev", Sels: sels}}}}}
+	res := ref.Execute(ms, d, "", vars, e.node(), nil, ref.Flags{})
 	m, _ := res.Data.(map[string]interface{})
-	return ref.Render(m["ev"])
+	return ref.Render(m["ev"]), len(res.Errs) > 0
 }
 
 type subModelEntry struct {
@@ -324,6 +394,7 @@ func runC19(c *run.Ctx) {
 			text, topic, field string
 			sels               []model.Sel
 			vars               map[string]interface{}
+			vdefs              []*model.VarDef
 		}
 		var kept []keptReq
 		reusedExe := 0
@@ -417,14 +488,26 @@ func runC19(c *run.Ctx) {
 				ro.mu.Unlock()
 				form := 0
 				if r.Intn(4) == 0 {
-					form = 1 + r.Intn(6)
+					form = 1 + r.Intn(7)
+				}
+				if form == 7 && len(h.sels) == 0 {
+					form = 0
 				}
 				var reqVars map[string]interface{}
 				if form == 5 {
 					reqVars = map[string]interface{}{"t": topic}
 				}
 				text := subRequestTextV(h.field, topic, h.sels, form)
-				c.Bucket("subscribe_request_form", []string{"plain", "inline-on-Subscription", "fragment-on-Subscription", "fragment-first", "topic-variable-default", "topic-variable-supplied", "selection-behind-fragment"}[form])
+				if form == 7 {
+					// the stream's own selection set uses variables of the subscription request: an argument of a field of
+					// the event and the condition of a @skip / @include, each either left to its default or supplied
+					h.sels, h.vdefs, reqVars = subSelectionWithVars(r, h.sels)
+					h.vars = reqVars
+					d := &model.Doc{Ops: []*model.Op{{Kind: "subscription", Name: "S", Vars: h.vdefs, Sels: []model.Sel{
+						&model.Field{Name: h.field, Args: []model.Arg{{Name: "topic", Value: topic}}, Sels: h.sels}}}}}
+					text = d.Print(model.LayoutN(0))
+				}
+				c.Bucket("subscribe_request_form", []string{"plain", "inline-on-Subscription", "fragment-on-Subscription", "fragment-first", "topic-variable-default", "topic-variable-supplied", "selection-behind-fragment", "selection-uses-variables"}[form])
 				hist = append(hist, fmt.Sprintf("subscribe#%d topic=%s fail=%v %s", h.sid, topic, keysOfBool(h.failOn), strings.TrimSpace(text)))
 				var res map[string]interface{}
 				// a third of the subscription requests are made with a parsed executable that is kept and used again for the
@@ -433,10 +516,13 @@ func runC19(c *run.Ctx) {
 				if viaExe && len(kept) > 0 && r.Intn(2) == 0 {
 					// the same request as an earlier subscriber's, through the executable parsed back then
 					k := kept[r.Intn(len(kept))]
-					text, topic, h.sels, h.field, reqVars = k.text, k.topic, k.sels, k.field, k.vars
+					text, topic, h.sels, h.field, reqVars, h.vdefs, h.vars = k.text, k.topic, k.sels, k.field, k.vars, k.vdefs, nil
+					if k.vdefs != nil {
+						h.vars = k.vars
+					}
 					hist[len(hist)-1] = fmt.Sprintf("subscribe#%d topic=%s fail=%v %s", h.sid, topic, keysOfBool(h.failOn), strings.TrimSpace(text))
 				} else if viaExe {
-					kept = append(kept, keptReq{text, topic, h.field, h.sels, reqVars})
+					kept = append(kept, keptReq{text, topic, h.field, h.sels, reqVars, h.vdefs})
 				}
 				pv, _ := run.Protect(func() {
 					if !viaExe {
@@ -533,12 +619,12 @@ func runC19(c *run.Ctx) {
 					if e.live && e.h.Match(topic) {
 						msg := leafMsg
 						if leafMsg == "" {
-							msg = expectedMessage(ms, e.h.sels, ev)
+							msg = expectedMessageV(ms, e.h.sels, ev, e.h.vdefs, e.h.vars)
 						}
 						if strings.HasPrefix(topic, "B:") {
 							parts := make([]string, len(evs))
 							for j, e2 := range evs {
-								parts[j] = expectedMessage(ms, e.h.sels, e2)
+								parts[j] = expectedMessageV(ms, e.h.sels, e2, e.h.vdefs, e.h.vars)
 							}
 							msg = "[" + strings.Join(parts, ",") + "]"
 						}
@@ -546,10 +632,9 @@ func runC19(c *run.Ctx) {
 						e.expected++
 						want = append(want, d)
 						if ev.badN && !strings.HasPrefix(topic, "B:") {
-							for _, sel := range e.h.sels {
-								if f, isF := sel.(*model.Field); isF && f.Name == "n" {
-									fieldErr = true
-								}
+							// (a selection of n that a @skip / @include with a variable excludes is not resolved)
+							if _, errs := expectedMessageE(ms, e.h.sels, ev, e.h.vdefs, e.h.vars); errs {
+								fieldErr = true
 							}
 						}
 						if d.Fail {
